@@ -332,7 +332,7 @@ QUICK = [
     ("full", G.POOL2, 2, 16, True),
     ("macro5", G.POOL2, 5, 16, True),
     ("tiny2", G.POOL2, 3, 8, True),
-    ("tiny3", G.POOL2, 3, 8, True),
+    ("tiny3", G.POOL2, 3, 16, True),
     ("alias", G.POOL3, 3, 8, False),
     ("tiny", G.POOL2, 4, 64, True),
 ]
